@@ -1,8 +1,119 @@
 import CM.Lib.Wire
-/-! Driver handler for C18 (stub: not built yet). -/
-namespace CM.Drv.C18
-open CM.Wire
+import CM.Proofs.Clean
+/-!
+Driver handler for C18.
 
-def handle (_args _impl : List String) : String := bad
+Request:  `clean <interval> <ocsp 0|1> <certs 0|1> <grace> <hex inst> <now> <store>`
+          `=> <ok|err> <deleted keys> <changed-or-created keys> <last_clean reading> <mutation log>`
+`<store>`: `-` or entries joined by `,`, each `<hex key>=<class>`; class `d` (directory),
+`o` (file with no reading) or `f;<staple>;<cert>;<last>` with staple `x|n|<int>`,
+cert `x|<int>`, last `x|z/<hex inst>|<int>/<hex inst>`.
+-/
+namespace CM.Drv.C18
+open CM.Wire CM.Clean
+
+def splitSlash (s : List Char) : Key :=
+  (s.foldr (fun c (acc : List Char × Key) =>
+    if c = '/' then ([], acc.1 :: acc.2) else (c :: acc.1, acc.2)) ([], [])) |> fun p => p.1 :: p.2
+
+def decKey (tok : String) : Option Key := (decStr tok).map splitSlash
+
+def encKey (k : Key) : String := encStr (List.intercalate ['/'] k)
+
+def decLast (t : String) : Option (Option (Option Int × List Char)) :=
+  if t = "x" then some none else
+  match t.splitOn "/" with
+  | [a, b] =>
+    match decStr b with
+    | none => none
+    | some who => if a = "z" then some (some (none, who)) else (a.toInt?).map (fun n => some (some n, who))
+  | _ => none
+
+def decVal (t : String) : Option Val :=
+  if t = "d" then some .dir
+  else if t = "o" then some (.file { staple := none, cert := none, last := none })
+  else match t.splitOn ";" with
+    | ["f", a, b, c] =>
+      let st : Option (Option (Option Int)) :=
+        if a = "x" then some none else if a = "n" then some (some none) else (a.toInt?).map (fun n => some (some n))
+      let ce : Option (Option Int) := if b = "x" then some none else (b.toInt?).map some
+      match st, ce, decLast c with
+      | some st, some ce, some la => some (.file { staple := st, cert := ce, last := la })
+      | _, _, _ => none
+    | _ => none
+
+def decStore (tok : String) : Option Store :=
+  if tok = "-" then some [] else
+  (tok.splitOn ",").foldr (fun e acc =>
+    match e.splitOn "=", acc with
+    | [a, b], some l => match decKey a, decVal b with
+      | some k, some v => some ((k, v) :: l)
+      | _, _ => none
+    | _, _ => none) (some [])
+
+def decKeys (tok : String) : Option (List Key) :=
+  if tok = "-" then some [] else
+  (tok.splitOn ",").foldr (fun e acc => match decKey e, acc with
+    | some k, some l => some (k :: l)
+    | _, _ => none) (some [])
+
+def showKeys (l : List Key) : String :=
+  if l = [] then "-" else String.intercalate "," (l.map encKey)
+
+def showLast (v : Option Val) : String :=
+  match v with
+  | none => "absent"
+  | some .dir => "dir"
+  | some (.file r) =>
+    match r.last with
+    | none => "x"
+    | some (none, who) => "z/" ++ encStr who
+    | some (some t, who) => toString t ++ "/" ++ encStr who
+
+def showAct : Act → String
+  | .lock => "L" | .unlock => "U"
+  | .delete k => "D" ++ encKey k
+  | .store k => "S" ++ encKey k
+
+def specVerdict (o : Opts) (now : Int) (s : Store) (impl : List String) : String :=
+  match impl with
+  | [res, del, chg, last, log] =>
+    match decKeys del with
+    | none => "bad-op"
+    | some dk =>
+      let s' := s.filter (fun e => !dk.contains e.1)
+      let lc := lastCheck o now s
+      let acts := log.splitOn ","
+      if chg ≠ "-" then "bad:frame-altered-or-created"
+      else if dk.any (fun k => (get s k).isNone) then "bad-op"
+      else if dk.any (fun k => !justifiedB o now s s' k) then "bad:deleted-unjustified"
+      else if lc = .recent && (del ≠ "-" || last ≠ showLast (get s lastKey) || res ≠ "ok") then "bad:interval-ignored"
+      else if lc = .go && (res ≠ "ok" || last ≠ showLast (some (record now o.inst))) then "bad:not-recorded"
+      else if (lc = .loadErr || lc = .decodeErr) && (del ≠ "-" || last ≠ showLast (get s lastKey)) then "bad:changed-after-error"
+      else if acts.head? ≠ some "L" || acts.getLast? ≠ some "U" ||
+          ((acts.drop 1).dropLast).any (fun a => a = "L" || a = "U") then "bad:not-locked"
+      else "ok"
+  | _ => "-"
+
+def handle (args impl : List String) : String :=
+  match args with
+  | ["clean", iv, oc, ce, gr, inst, now, store] =>
+    match iv.toInt?, gr.toInt?, decStr inst, now.toInt?, decStore store with
+    | some iv, some gr, some inst, some now, some s =>
+      let o : Opts := { interval := iv, ocsp := oc = "1", certs := ce = "1", grace := gr, inst := inst }
+      let (s', out) := clean o now s
+      let deleted := (s.filter (fun e => (get s' e.1).isNone)).map (·.1)
+      let model := (if out.err then "err" else "ok") ++ " " ++ showKeys deleted ++ " - " ++
+        showLast (get s' lastKey) ++ " " ++ String.intercalate "," ((acts o now s).map showAct)
+      let nS := (deleted.filter (fun k => k.head? = some ocspC)).length
+      let nC := (deleted.filter (fun k => k.head? = some certsC)).length
+      let tag := (if out.err then "E" else if !out.ran then "skip" else "run") ++
+        (if out.aborted then "+abort" else "") ++
+        (if nS > 0 then "+staples" else "") ++ (if nC > 0 then "+certs" else "") ++
+        (if out.dels.any (fun d => d.length = 3) then "+folder" else "") ++
+        (if out.dels.length > deleted.length then "+noop-deletes" else "")
+      reply model (specVerdict o now s impl) (if out.ran && nS + nC = 0 && !out.aborted then "" else tag)
+    | _, _, _, _, _ => bad
+  | _ => bad
 
 end CM.Drv.C18
